@@ -134,6 +134,98 @@ def extra_C20(res, tier, seed, cov):
 
 EXTRA["C20"] = extra_C20
 
+
+# ---------------------------------------------------------------------------------------------
+# C04: when a table theorem no longer checks, search for the entry and exhibit the failure in the real arithmetic
+
+def _factor(n):
+    """prime factors of n < 2^64 (trial division + Pollard rho)"""
+    import math, random as _r
+    fs = set()
+
+    def isprime(m):
+        if m < 2:
+            return False
+        for q in (2, 3, 5, 7, 11, 13, 17, 19, 23, 29, 31, 37):
+            if m % q == 0:
+                return m == q
+        d, s2 = m - 1, 0
+        while d % 2 == 0:
+            d //= 2; s2 += 1
+        for a in (2, 3, 5, 7, 11, 13, 17, 19, 23, 29, 31, 37):
+            x = pow(a, d, m)
+            if x in (1, m - 1):
+                continue
+            for _ in range(s2 - 1):
+                x = x * x % m
+                if x == m - 1:
+                    break
+            else:
+                return False
+        return True
+
+    def rho(m):
+        if m % 2 == 0:
+            return 2
+        while True:
+            c = _r.randrange(1, m); x = y = 2; d = 1
+            while d == 1:
+                x = (x * x + c) % m; y = (y * y + c) % m; y = (y * y + c) % m
+                d = math.gcd(abs(x - y), m)
+            if d != m:
+                return d
+
+    def go(m):
+        if m == 1:
+            return
+        if isprime(m):
+            fs.add(m); return
+        d = rho(m)
+        go(d); go(m // d)
+
+    for q in (2, 3, 5, 7, 11, 13):
+        while n % q == 0:
+            fs.add(q); n //= q
+    go(n)
+    return sorted(fs)
+
+
+def search_C04(res):
+    """entries whose text differs from the committed Gen/ConwayText.lean are the candidates; for each with
+    p^n < 2^64 the generator's order is tested in the implementation's own arithmetic"""
+    try:
+        old = subprocess.run(["git", "-C", VERIF, "show", "HEAD:lean/Algobra/Gen/ConwayText.lean"], capture_output=True, text=True).stdout
+        new = open(os.path.join(GEN, "ConwayText.lean")).read()
+    except Exception as e:
+        return 0
+    pat = re.compile(r"\[(\d+),(\d+),\[([0-9,]*)\]\]")
+    olds = {(m.group(1), m.group(2)): m.group(3) for m in pat.finditer(old)}
+    cands = [(int(m.group(1)), int(m.group(2)), m.group(3)) for m in pat.finditer(new) if olds.get((m.group(1), m.group(2))) != m.group(3)]
+    found = 0
+    for (p, n, cs) in cands[:20]:
+        if p ** n >= 2 ** 64 or p >= 2 ** 32:
+            continue
+        q = p ** n
+        desc = "B:%d:%d" % (n, sum(int(c) << i for i, c in enumerate(cs.split(",")))) if p == 2 else (
+            "P:%d" % p if n == 1 else "E:%d:%d:%s" % (p, n, ".".join(cs.split(","))))
+        ops = ["e0=gen@0", "e1=pow e0 %d" % (q - 1)]
+        rs = _factor(q - 1)
+        for r in rs:
+            ops.append("%s=pow e0 %d" % ("e%d" % (len(ops)), (q - 1) // r))
+        line = "hist %s U:58:- B:lex.1:58:59:- 0 | %s" % (desc, " | ".join(ops))
+        g = run_go([line])[0]
+        segs = g.rpartition(" ## ")[0].split(" | ")
+        one = segs[1].split("#")[-1] if len(segs) > 1 else "?"
+        bad = [r for r, sg in zip(rs, segs[2:]) if sg.split("#")[-1] == one]
+        if g.startswith("PANIC") or "descriptor mismatch" in g:
+            continue
+        if bad or not segs[1].startswith("ok"):
+            found += 1
+            res.violation("property: C04\nkind: database entry (%d,%d) changed and is not primitive: in the implementation's own arithmetic the generator a of GF(%d^%d) satisfies a^((q-1)/r) = 1 for r in %s\ncase: %s\nimplementation: %s\nentry now: [%d,%d,[%s]]\nentry at the last verified state: [%s]\n" % (
+                p, n, p, n, bad, line, g[:600], p, n, cs, olds.get((str(p), str(n)))))
+    return found
+
+
 NOTES["C20"] = ["the Lean theorems are about the regenerated syntactic effect table (which struct fields are assigned where) and an abstract footprint semantics; absence of data races in the compiled program additionally rests on the soundness of that extraction and on the race detector's sampling of schedules (supporting test, not a proof)"]
 NOTES["C15"] = ["parsers are modelled by a regex engine over the regenerated pattern fragments; the round-trip oracle is evaluated on the implementation; theorems cover the classes named in Props/C15.lean"]
 NOTES["C13"] = ["the counting clause (normal-form monomials = common zeros) is checked by the correspondence run only and is labelled a test"]
